@@ -75,20 +75,21 @@ fn g5() -> Vec<(String, crate::gram::G)> {
     use crate::gram::*;
     let m = crate::checks::c14::menu();
     let mut out = vec![];
-    for (i, a) in m.iter().enumerate() { for (j, b) in m.iter().enumerate() {
+    // (`rev`: the token that only ONE of the two states has is declared after the shared one, so that it comes last in that
+    // state's sorted entries, behind everything the other state has)
+    for rev in [false, true] { for (i, a) in m.iter().enumerate() { for (j, b) in m.iter().enumerate() {
         if i == j { continue; }
         let tok = |t: &(&'static str, bool)| if t.1 { s(t.0) } else { pat(t.0) };
-        let g = G::new(&format!("g5_{}_{}", i, j))
+        let mut g = G::new(&format!("g5{}_{}_{}", if rev { "r" } else { "" }, i, j))
             .rule("source", choice(vec![
                 seq(vec![s("x"), sym("item"), choice(vec![seq(vec![sym("t1"), s("z")]), sym("t2")])]),
                 seq(vec![s("y"), sym("item"), sym("t2")]),
             ]))
-            .rule("item", seq(vec![s("#"), s("#")]))
-            .rule("t1", tok(a))
-            .rule("t2", tok(b))
-            .extras(vec![pat(" ")]);
+            .rule("item", seq(vec![s("#"), s("#")]));
+        g = if rev { g.rule("t2", tok(b)).rule("t1", tok(a)) } else { g.rule("t1", tok(a)).rule("t2", tok(b)) };
+        g = g.extras(vec![pat(" ")]);
         out.push((g.name.clone(), g));
-    } }
+    } } }
     out
 }
 
@@ -174,7 +175,7 @@ pub fn worker(ctx: &Ctx, res: &mut ShardResult) {
     }
     // (a) equivalence on the lexical-conflict family G5: inputs <x|y> '#' body, body over {a, b, c, ' ', z} up to 4 characters
     let g5s = g5();
-    let g5cap = if ctx.mini() { 6 } else if ctx.quick() { 78 } else { g5s.len() };
+    let g5cap = if ctx.mini() { 6 } else if ctx.quick() { 104 } else { g5s.len() };
     let step = (g5s.len() as f64 / g5cap as f64).max(1.0);
     let chosen: Vec<usize> = (0..g5cap).map(|k| (k as f64 * step) as usize).filter(|&k| k < g5s.len()).collect();
     for (ci, &gi) in chosen.iter().enumerate() {
